@@ -143,7 +143,7 @@ def exhaustive_cases(tier):
 @st.composite
 def random_cases(draw):
     case = draw(cases.partition_cases(algs=cases.EXACT_PARTITIONERS, oracle=True, max_bins=5,
-                                      presentations=["list", "list", "list", "dict-str", "array"],
+                                      presentations=["list", "list", "list", "dict-str", "array", "names-array", "dict-int"],
                                       profiles=["tiny", "small", "small", "medium", "large", "huge", "two-valued",
                                                 "one-dominant", "one-dominant", "planted", "planted", "planted",
                                                 "arithmetic", "all-equal"]))
